@@ -231,7 +231,8 @@ def probes(fid: int, rng=None, cap: int = 8) -> tuple[list[tuple], int, int]:
         seen.append((k, bool(v)))
         return v
 
-    ns: dict[str, Any] = {"__rec": rec}
+    # the instrumented copy lives among the table module's own globals (module constants, helpers)
+    ns: dict[str, Any] = {**vars(FN), "__rec": rec}
     exec(compile(tree, f"<probe {fn.__name__}>", "exec"), ns)  # noqa: S102
     g = ns[fn.__name__]
     grid = list(itertools.product(_GRID, repeat=FN.ARITY[fid]))
